@@ -1436,7 +1436,9 @@ def rule_window(ctx, classes=SKETCH_CLASSES):
     for cls, meth, k in ngram_kernels(F, classes):
         w = walk_kernel(F, k)
         keyp = [p for p, t in k.ptypes.items() if t.kind == "bytes"][0]
-        calls = [e for e in w.events if e.kind == "call" and e.callee is not None and e.callee.is_kernel and not getattr(e, "inlined", False)]
+        # the adds of an n-gram kernel: calls of kernels that receive (a slice of) the key
+        calls = [e for e in w.events if e.kind == "call" and e.callee is not None and e.callee.is_kernel and not getattr(e, "inlined", False)
+                 and any(isinstance(a, Bytes) for a in e.args)]
         single = [c for c in calls if not c.loops]
         looped = [c for c in calls if c.loops]
         L = Lin.term(("len", keyp))
@@ -1453,19 +1455,38 @@ def rule_window(ctx, classes=SKETCH_CLASSES):
             res.append((bool(okk and p and okv), "whole key added once when len(key) <= n" if okk and p and okv else
                         ("the short-key branch does not add the whole key" if not okk else
                          "the whole-key branch is taken although len(key) > n is possible" if not p else "multiplicity is not 1"), fact_strs(c)))
-        agg(ctx, "window", k, single[0].node if single else k.node, "%s: whole-key branch" % k.name,
-            "len(key) <= n: the key itself is added, once", res)
+        # one-loop form: windows of size min(len, n) starting at 0 .. len - size.  For len <= n that is the single window key[0:len]
+        # (the whole key), otherwise the length-n windows: both clauses at once
+        def _min_len_n(lin):
+            t = lin.single_term()
+            if t is None or t[0] != "min" or lin != Lin.term(t) or t not in w.P.minmax:
+                return False
+            kind, a_, b_ = w.P.minmax[t]
+            return kind == "min" and {a_.key(), b_.key()} == {L.key(), n.key()}
+        unified = (not single) and bool(looped) and all(
+            isinstance(kv_, Bytes) and kv_.stop is not None and _min_len_n(kv_.stop - kv_.start)
+            for kv_ in [next((a for a in c.args if isinstance(a, Bytes)), None) for c in looped])
+        if not unified:
+            agg(ctx, "window", k, single[0].node if single else k.node, "%s: whole-key branch" % k.name,
+                "len(key) <= n: the key itself is added, once", res)
         res = []
         for c in looped:
             lp = c.loops[-1]
             am = dict(zip(c.callee.params, c.args))
             kv = next((a for a in c.args if isinstance(a, Bytes)), None)
             i = Lin.term(lp.varterm) if lp.varterm else None
-            ok1 = len(c.loops) == 1 and lp.kind == "range" and lp.start == Lin.const(0) and lp.step == Lin.const(1) and lp.stop == L - n + 1
-            ok2 = isinstance(kv, Bytes) and kv.root == keyp and i is not None and kv.start == i and kv.stop is not None and kv.stop - kv.start == n
-            # the (unsigned) loop bound must not wrap: at loop entry the facts entail  len - n + 1 >= 0
+            # windows key[S : S + n] with S = v + c for the loop variable v of `range(s0, e0)`: the first window starts at 0
+            # (s0 + c == 0) and the last one at len - n (e0 - 1 + c == len - n); `for i in range(len - n + 1): key[i : i + n]` is c = 0
+            size = (kv.stop - kv.start) if isinstance(kv, Bytes) and kv.stop is not None else None
+            ok2 = isinstance(kv, Bytes) and kv.root == keyp and i is not None and size is not None and (size == n or (unified and _min_len_n(size))) \
+                and lp.varterm not in (kv.start - i).terms()
+            cshift = (kv.start - i) if ok2 else Lin.const(0)
+            wsize = size if ok2 else n
+            ok1 = len(c.loops) == 1 and lp.kind == "range" and lp.step == Lin.const(1) and (lp.start + cshift) == Lin.const(0) \
+                and (lp.stop - 1 + cshift) == L - wsize
+            # the (unsigned) loop bound must not wrap: at loop entry the facts entail  len - size + 1 >= 0
             ls = [x for x in w.events if x.kind == "loopstart" and x.loop is lp]
-            p = bool(ls) and w.P.prove_le0(-(L - n + 1), ls[0].facts)
+            p = bool(ls) and (w.P.prove_le0(-(L - wsize + 1), ls[0].facts) or (unified and ok2))       # min(len, n) <= len
             vv = am.get("value")
             okv = vv is None or (isinstance(vv, Num) and vv.lin == Lin.const(1))
             okk = ok1 and ok2 and p and okv
@@ -1511,7 +1532,7 @@ def rule_window(ctx, classes=SKETCH_CLASSES):
             inbody = [c for c in on_path(w.events, le) if c in looped and c.loops[-1] is le.loop]
             res.append((len(inbody) == 1, "one add per window" if len(inbody) == 1 else "%d adds in one iteration" % len(inbody), fact_strs(le)))
         agg(ctx, "window", k, k.node, "%s: add call sites" % k.name, "one whole-key call or one window loop with one add per window, nothing else",
-            res if (single and looped) else [(False, "whole-key call or window loop missing", [])])
+            res if ((single and looped) or unified) else [(False, "whole-key call or window loop missing", [])])
         # state threaded unchanged: every other argument is the kernel's own same-named parameter
         res = []
         for c in calls:
